@@ -40,8 +40,16 @@ FromPrimBody(F, v) ==
 
 RECURSIVE FromFields(_, _, _, _)
 
+\* oneof holders are reset before the fields are read: those the message declares itself; those of messages embedded
+\* by value only when the deviation embeddedOneofNotReset is repaired
+RECURSIVE ResetHolderPaths(_, _, _)
+ResetHolderPaths(obj, hs, i) ==
+  IF i > Len(hs) THEN obj
+  ELSE ResetHolderPaths(IF CanSet(obj, hs[i]) THEN SetPath(obj, hs[i], Nil) ELSE obj, hs, i + 1)
 ResetHolders(M, obj) ==
-  St([n \in DOMAIN obj.f |-> IF n \in Range(M.oneofs) THEN Nil ELSE obj.f[n]])
+  IF Q("embeddedOneofNotReset")
+  THEN St([n \in DOMAIN obj.f |-> IF n \in Range(M.oneofs) THEN Nil ELSE obj.f[n]])
+  ELSE ResetHolderPaths(obj, M.ohold, 1)
 
 \* nullable embedded messages whose children are all primitive are reset as well (resettableEmbeds)
 EmbedIdx(M) == {i \in DOMAIN M.fields : M.fields[i].embed # ""}
@@ -66,7 +74,7 @@ FromPrimField(F, tf, acc) ==
      ELSE IF ~TypedAs(F, a) THEN [acc EXCEPT !.dg = Append(@, Diag("readConversion", F.path))]
      ELSE IF F.oneof # "" THEN
         \* do not set an empty oneof value: it would override a branch set by another attribute
-        (IF Known(a) THEN [acc EXCEPT !.obj = SetPath(@, <<F.oneof>>, One(F.name, t))] ELSE acc)
+        (IF Known(a) THEN [acc EXCEPT !.obj = SetPath(@, F.opath, One(F.name, t))] ELSE acc)
      ELSE IF F.embed # "" THEN
         (IF Known(a)
          THEN LET pp == Front(F.gopath)
@@ -85,7 +93,7 @@ FromObjField(F, tf, acc) ==
      ELSE IF ~TypedAs(F, a) THEN [acc EXCEPT !.dg = Append(@, Diag("readConversion", F.path))]
      ELSE IF F.oneof # "" THEN
         (IF Known(a)
-         THEN [obj |-> SetPath(acc.obj, <<F.oneof>>, One(F.name, Ptr(filled))),
+         THEN [obj |-> SetPath(acc.obj, F.opath, One(F.name, Ptr(filled))),
                dg |-> IF M.empty THEN acc.dg ELSE acc.dg \o r.dg,
                pn |-> ~M.empty /\ r.pn]
          ELSE acc)
